@@ -113,7 +113,7 @@ func DeepEqual(a, b interface{}) (eq bool, ok bool) {
 	}
 	switch x := a.(type) {
 	case nil:
-		return true, false // null = null is not fixed by the statement
+		return true, true // structural equality: null equals null
 	case bool:
 		return x == b.(bool), true
 	case float64:
